@@ -29,7 +29,7 @@ def run(ctx):
     return finish(ctx, rule=RULE, exhaustive=True,
                   assumptions=["every mount prefix is used by one application and nothing else is registered under it (side condition of the property)",
                                "the fang identity and early-answer behaviour are carried by the harness's TraceFang; its enter/leave log is the observation",
-                               "fang tuples of arity <= 4 and local fang tuples of arity <= 2 are exercised"],
+                               "fang tuples of every arity (1..8) and local fang tuples of arity 1..4 are exercised by the random applications"],
                   trusted=["harness/src/router.rs (TraceFang, application assembly through ohkami::__verif)"])
 
 def replay(ctx, path):
